@@ -108,13 +108,13 @@ def depth_of(doc, name):
     return d
 
 
-def check_direct(defn, pkt_bytes, ex):
+def check_direct(defn, pkt_bytes, ex, **kw):
     """route (a): parse_ccsds_packet on a fresh CCSDSPacket"""
     from space_packet_parser import packets
     from space_packet_parser.exceptions import UnrecognizedPacketTypeError
     pkt = packets.CCSDSPacket(raw_data=pkt_bytes)
     try:
-        r = defn.parse_ccsds_packet(pkt)
+        r = defn.parse_ccsds_packet(pkt, **kw)
     except UnrecognizedPacketTypeError as e:
         if ex.kind != "unrecognized":
             if ex.kind == "either":
@@ -212,7 +212,38 @@ def check_case(ctx, case):
         if r:
             return ctx.fail(r[0], f"[packet_generator yield_unrecognized_packet_errors={flag}] {r[1]}", case,
                             bucket="gen:" + r[0])
+    # decoding may start at any container that begins with the header: alternative roots given per call
+    for alt in alternative_roots(doc):
+        m2 = xref.Model(dict(doc, root=alt))
+        some = packets[:12]
+        ex2 = xcheck.expectations(m2, some)
+        ctx.cls("decoded from an alternative root as well")
+        for p, ex in zip(some, ex2):
+            if ex.kind == "precondition":
+                continue
+            r = check_direct(defn, p, ex, root_container_name=alt)
+            if r:
+                return ctx.fail(r[0], f"[parse_ccsds_packet root_container_name={alt!r}, route {case['route']}] packet "
+                                      f"{p.hex()} ({ex.label()}, path {ex.res.path}): {r[1]}",
+                                dict(case, only_packet=p.hex()), bucket="altroot:" + r[0])
+        out, exc, _ = xcheck.run(defn, b"".join(some), len(some), root_container_name=alt)
+        r = xcheck.compare_run(ex2, out, exc, False, some)
+        if r:
+            return ctx.fail(r[0], f"[packet_generator root_container_name={alt!r}] {r[1]}", case,
+                            bucket="altroot-gen:" + r[0])
+        # ... and the default root is unaffected by what was decoded from the other one
+        p0, e0 = packets[0], expects[0]
+        if e0.kind != "precondition":
+            r = check_direct(defn, p0, e0)
+            if r:
+                return ctx.fail(r[0], f"[parse_ccsds_packet after decoding from root {alt!r}] packet {p0.hex()}: {r[1]}",
+                                dict(case, only_packet=p0.hex()), bucket="after-altroot:" + r[0])
     return None
+
+
+def alternative_roots(doc):
+    return [c["name"] for c in doc["containers"]
+            if not c.get("base") and c["name"] != doc["root"] and c["entries"] and c["entries"][0] == ["c", doc["root"]]]
 
 
 @st.composite
